@@ -10,8 +10,8 @@ use std::fmt::Write as _;
 fn list<T: std::fmt::Display>(v: &[T]) -> String { if v.is_empty() { "-".into() } else { v.iter().map(|x| x.to_string()).collect::<Vec<_>>().join(",") } }
 fn parse_list<T: std::str::FromStr>(s: &str) -> Vec<T> where T::Err: std::fmt::Debug { if s == "-" { vec![] } else { s.split(',').map(|x| x.parse().unwrap()).collect() } }
 
-fn gen_errors(r: &mut Rng, n: usize) -> Vec<i32> {
-    let kind = r.below(8);
+fn gen_errors(r: &mut Rng, n: usize) -> Vec<i32> { let k = r.below(8); gen_errors_kind(r, n, k) }
+fn gen_errors_kind(r: &mut Rng, n: usize, kind: u64) -> Vec<i32> {
     let scale: i64 = match r.below(6) { 0 => 1, 1 => 8, 2 => 300, 3 => 1 << 15, 4 => 1 << 22, _ => 1 << 27 };
     let mut v = Vec::with_capacity(n);
     let mut seg_scale = scale;
@@ -43,9 +43,13 @@ pub fn gen(seed: u64, n: usize, out: &mut String) {
             0..=5 => {
                 let len = *r.pick(&[64usize, 65, 96, 128, 192, 256, 320, 512, 576, 1024, 1152, 4096, 4608]);
                 let len = if r.chance(1, 5) { 64 + r.below(2000) as usize } else { len };
+                // long blocks (finest partition order 7..8 and above): level changes every 64 samples make the finest orders win
+                let long = r.chance(1, 16);
+                let len = if long { *r.pick(&[8192usize, 16384, 24576, 32640, 8192 + 128, 12288]) } else { len };
                 let warmup = *r.pick(&[0usize, 1, 2, 4, 8, 12, 24, 32]);
                 let maxp = *r.pick(&[0usize, 1, 3, 7, 13, 14, 14]);
-                writeln!(out, "RICE r{} F {} {} {}", i, warmup, maxp, list(&gen_errors(&mut r, len))).unwrap();
+                let errs = if long && r.chance(2, 3) { gen_errors_kind(&mut r, len, 5) } else { gen_errors(&mut r, len) };
+                writeln!(out, "RICE r{} F {} {} {}", i, warmup, maxp, list(&errs)).unwrap();
             }
             6 | 7 => { let len = *r.pick(&[0usize, 1, 15, 16, 17, 32, 33, 64, 100]); writeln!(out, "RICE r{} T {}", i, list(&gen_folded(&mut r, len))).unwrap(); }
             8 => { let la = *r.pick(&[1usize, 16, 40]); let lb = *r.pick(&[1usize, 16, 40]);
